@@ -602,3 +602,41 @@ def c09_arms(R):
             construct=f"_abstract_internal arm {keys[0]}",
         )
     R.need(n >= 5, f"only {n} constructor arms found in _abstract_internal")
+
+
+# ----------------------------------------------------------------------------- C16.checked (pre-existing defect reported by a seeding agent)
+
+
+@rule(
+    "C16.checked",
+    props=("C16", "C18"),
+    floor=1,
+    family="PAIR",
+    desc="the backend's unsat_core(solver) reads the core off that native solver's most recent check, so in "
+    "FullFrontend.unsat_core it is preceded, on every path, by a check that is statically bound to the native solver "
+    "(FullFrontend.satisfiable / the backend's own satisfiable) - not only by the virtual self.satisfiable(), which "
+    "the sat cache answers without touching the (possibly rebuilt) native solver",
+)
+def c16_checked(R):
+    tree = R.tree
+    m = tree.mod(FF)
+    fn = tree.func(FF, "FullFrontend.unsat_core")
+    calls = [c for c in _calls(fn) if isinstance(c.func, ast.Attribute) and c.func.attr == "unsat_core" and "_solver_backend" in ast.unparse(c.func)]
+    R.need(calls, "FullFrontend.unsat_core no longer asks the backend for the core (anchor vanished)")
+    native = ("FullFrontend.satisfiable", "self._solver_backend.satisfiable", "self._solver_backend.check_satisfiability", "FullFrontend.check_satisfiability")
+    for c in calls:
+        facts = guards.guards_of(c)
+        ok = any(
+            isinstance(x, ast.Call) and (dotted(x.func) or "") in native
+            for t, pol in facts
+            for x in ast.walk(t)
+        )
+        R.check(
+            ok,
+            m,
+            c,
+            "the native solver is checked in this method before its core is read",
+            "FullFrontend.unsat_core reads the core after consulting only "
+            f"{[ast.unparse(t) for t, _ in facts]}: self.satisfiable() is answered by SatCacheMixin from its cache, so after "
+            "pickling or downsize() (native solver rebuilt, never checked) a tracked unsatisfiable solver returns ()",
+        )
